@@ -142,6 +142,13 @@ class Variable(FortranObj):
     def get_hover_md(self, long=False, drop_arg=-1):
         return fortran_md(*self.get_hover(long, drop_arg))
 
+    @property
+    def mems(self):
+        """Specific procedures, when this entity is linked to a generic
+        interface (a procedure pointer, a binding, an ASSOCIATE name): its type
+        is then reported as INTERFACE"""
+        return getattr(self.link_obj, "mems", [])
+
     def get_keywords(self):
         # TODO: if local keywords are set they should take precedence over link_obj
         # Alternatively, I could do a dictionary merge with local variables
